@@ -19,7 +19,7 @@ def models(tier, seed):
     if tier == 'quick':
         return [dict(module='MC_C16.tla', cfg='MC_C16_quick.cfg', batch=50), dict(module='MC_C16.tla', cfg='MC_C16_quick_open.cfg', batch=50)]
     return [dict(module='MC_C16.tla', cfg='MC_C16_thorough.cfg', batch=50),
-            dict(module='MC_C16.tla', cfg='MC_C16_sim.cfg', simulate='num=100000000', depth=8, seed=seed, max_cases=20000, workers=12, batch=50)]
+            dict(module='MC_C16.tla', cfg='MC_C16_sim.cfg', simulate='num=100000000', depth=8, seed=seed, max_cases=20000, shards=12, batch=50)]
 
 
 def required_tags(tier):
